@@ -157,6 +157,12 @@ class FrameReader:
                 return [(p, ("op",))]
             if last in ("Ok", "Some"):
                 return self.ev(args[0], p) if args else [(p, None)]
+            if path in ("std::convert::From::from", "std::convert::Into::into") and len(args) == 1:
+                # a widening conversion of an integer (u32::from(x)): the value is that of its operand
+                ga = H.call_gargs(n)
+                from .intconv import INT_TYPES
+                if len(ga) >= 2 and ga[0] in INT_TYPES and ga[1] in INT_TYPES:
+                    return self.ev(args[0], p)
             if path.startswith("crate::"):
                 # an unknown crate function: still look at its arguments (casts of the opcode, reads) for their effects
                 for a_ in args:
@@ -360,7 +366,33 @@ class FrameReader:
 
     def if_expr(self, n, p):
         cond, then, els = n[1], n[2], n[3]
-        if self.is_large_test(cond):
+        c0 = H.strip(cond)
+        if H.tag(c0) == "letexpr":
+            # `if let PAT = e { .. } else { .. }` is the two-armed match on e (the else branch stands for every other variant)
+            pat = c0[1]
+            pp = pat
+            while H.tag(pp) in ("pref", "pderef"):
+                pp = pp[1]
+            out = []
+            for q, v in self.ev(c0[2], p):
+                if v == ("attempt",):
+                    name = pp[1].split("::")[-1] if H.tag(pp) in ("ts", "ppath", "ps") else ""
+                    if name in ("Header", "AdditionalByteRequired"):
+                        a, b = q.fork(), q.fork()
+                        a.large, b.large = (name != "Header"), (name == "Header")
+                        if name == "Header" and H.tag(pp) == "ts" and pp[2] and H.tag(pp[2][0]) == "bind":
+                            a.env[pp[2][0][1]] = ("hdr", "s2")
+                        out += self.ev(then, a)
+                        out += self.ev(els, b) if els is not None else [(b, None)]
+                        q.dead = True
+                        continue
+                    self.unk("unrecognised WrathServerAttempt pattern", pat)
+                out += self.ev(then, q.fork())
+                out += self.ev(els, q.fork()) if els is not None else [(q.fork(), None)]
+                q.dead = True
+            return out
+        named = H.tag(c0) == "local" and p.env.get(c0[1]) == ("largetest",)
+        if named or self.is_large_test(cond):
             a = p.fork()
             a.large = True
             b = p.fork()
@@ -427,6 +459,10 @@ class FrameReader:
                     continue
                 if st[0] == "let":
                     if st[2] is None:
+                        nxt.append(q)
+                        continue
+                    if H.tag(st[1]) == "bind" and self.is_large_test(st[2]):
+                        q.env[st[1][1]] = ("largetest",)  # `let is_large = header[0] & 0x80 != 0;`
                         nxt.append(q)
                         continue
                     for q2, v in self.ev(st[2], q):
